@@ -15,6 +15,7 @@ import copy
 
 from .model import norm
 from . import inline as _inline
+from . import astutil
 
 
 def _split_tuple_assigns(stmts):
@@ -47,6 +48,17 @@ def _literal_table(prog, f, e):
         node = f.mod.assigns.get(e.id)
         if node is None:
             return None
+    elif isinstance(e, ast.Attribute) and isinstance(e.value, ast.Name) and f.cls is not None and (e.value.id in ('self', 'cls') or e.value.id == f.cls.name):
+        # a class-level table read through the instance: one definition in the whole program, never stored on an instance
+        got = prog.class_attr(f.cls, e.attr)
+        n_defs = sum(1 for c in prog.classes.values() if e.attr in c.class_assigns)
+        stored = any(isinstance(a, ast.Attribute) and a.attr == e.attr and isinstance(a.ctx, (ast.Store, ast.Del)) for m in prog.mods.values() for a in ast.walk(m.tree)) or \
+            any(isinstance(c, ast.Call) and isinstance(c.func, ast.Name) and c.func.id in ('setattr', 'delattr') and len(c.args) >= 2 and not (isinstance(c.args[1], ast.Constant) and c.args[1].value != e.attr)
+                and e.attr in (lambda names_: {e.attr} if names_ is None else names_)(_dynamic_names(prog, m, c))
+                for m in prog.mods.values() for c in ast.walk(m.tree))
+        if got is None or n_defs != 1 or stored:
+            return None
+        node = got[1]
     if not isinstance(node, (ast.Tuple, ast.List)):
         return None
     try:
@@ -56,6 +68,74 @@ def _literal_table(prog, f, e):
     if not isinstance(v, (tuple, list)) or len(v) > 16:
         return None
     return list(v)
+
+
+def _table_driven_setattr(prog, call):
+    """a setattr whose attribute name is not a literal: True when the names it can take are known and `call._avoid` is not one of
+    them - the name is a parameter that every call site gives as a literal, or the variable of a loop over a literal table."""
+    return False
+
+
+def _dynamic_names(prog, mod, call):
+    """the set of attribute names `setattr(o, <name>, v)` can store, or None when they are not all literals of the program"""
+    a = call.args[1]
+    if not isinstance(a, ast.Name):
+        return None
+    pm = mod.__dict__.get('_pm')
+    if pm is None:
+        pm = mod.__dict__['_pm'] = astutil.parents(mod.tree)
+    cur = call
+    while cur in pm:
+        cur = pm[cur]
+        if isinstance(cur, ast.For):
+            tn = [cur.target] if isinstance(cur.target, ast.Name) else (list(cur.target.elts) if isinstance(cur.target, ast.Tuple) else [])
+            if any(isinstance(t, ast.Name) and t.id == a.id for t in tn):
+                it = cur.iter
+                src = None
+                if isinstance(it, ast.Name):
+                    src = mod.assigns.get(it.id)
+                elif isinstance(it, ast.Attribute):
+                    cands = [c.class_assigns[it.attr] for c in prog.classes.values() if it.attr in c.class_assigns]
+                    src = cands[0] if len(cands) == 1 else None
+                elif isinstance(it, (ast.Tuple, ast.List)):
+                    src = it
+                if src is None:
+                    return None
+                try:
+                    v = ast.literal_eval(src)
+                except Exception:
+                    return None
+                out = set()
+
+                def flat(x):
+                    if isinstance(x, (tuple, list)):
+                        for y in x:
+                            flat(y)
+                    elif isinstance(x, str):
+                        out.add(x)
+                flat(v)
+                return out
+        if isinstance(cur, (ast.FunctionDef, ast.AsyncFunctionDef)):
+            params = [x.arg for x in cur.args.posonlyargs + cur.args.args]
+            if a.id not in params or any(isinstance(n, ast.Name) and n.id == a.id and isinstance(n.ctx, ast.Store) for n in ast.walk(cur)):
+                return None
+            pos = params.index(a.id) - (1 if params and params[0] in ('self', 'cls') else 0)
+            out = set()
+            n_sites = 0
+            for g in prog.funcs:
+                for c in ast.walk(g.node):
+                    if isinstance(c, ast.Call) and (isinstance(c.func, ast.Attribute) and c.func.attr == cur.name or isinstance(c.func, ast.Name) and c.func.id == cur.name):
+                        if isinstance(c.func, ast.Attribute) and isinstance(c.func.value, ast.Name) and c.func.value.id == 'self' and g.cls is not None:
+                            tgt = prog.resolve_method(g.cls, cur.name)
+                            if tgt is not None and tgt.node is not cur and not any(getattr(x.methods.get(cur.name), 'node', None) is cur for x in prog.subclasses_of(g.cls)):
+                                continue          # resolves to another method of that name
+                        n_sites += 1
+                        v = c.args[pos] if pos < len(c.args) else next((k.value for k in c.keywords if k.arg == a.id), None)
+                        if not (isinstance(v, ast.Constant) and isinstance(v.value, str)):
+                            return None
+                        out.add(v.value)
+            return out if n_sites else None
+    return None
 
 
 class _Fold(ast.NodeTransformer):
@@ -239,6 +319,31 @@ def _decomprehend(stmts, counter):
 _cache = {}
 
 
+def expand_properties(prog, f, node, depth=2):
+    """`self.<name>` where <name> is a read-only property of f's class whose getter is a single `return <expr>` (no setter) is
+    replaced by that expression: derived quantities written as properties are read as the expressions they stand for"""
+    if f.cls is None or depth <= 0:
+        return node
+    changed = [False]
+
+    class P(ast.NodeTransformer):
+        def visit_Attribute(self, n):
+            self.generic_visit(n)
+            if isinstance(n.ctx, ast.Load) and isinstance(n.value, ast.Name) and n.value.id == 'self':
+                g = prog.resolve_getter(f.cls, n.attr)
+                if g is not None and prog.resolve_setter(f.cls, n.attr) is None and g.node is not f.node:
+                    body = [s_ for s_ in g.node.body if not (isinstance(s_, ast.Expr) and isinstance(s_.value, ast.Constant))]
+                    if len(body) == 1 and isinstance(body[0], ast.Return) and body[0].value is not None and len(g.params) == 1:
+                        changed[0] = True
+                        return ast.copy_location(copy.deepcopy(body[0].value), n)
+            return n
+    node = P().visit(node)
+    if changed[0]:
+        ast.fix_missing_locations(node)
+        return expand_properties(prog, f, node, depth - 1)
+    return node
+
+
 class _ZipLoops(ast.NodeTransformer):
     """`for i, (a, b) in enumerate(zip(X, Y))` / `for a, b in zip(X, Y)` / `for i, a in enumerate(X)` over plain attribute or name
     expressions -> `for i in range(len(X)): a = X[i]; b = Y[i]` (arrays of one length iterate over their first axis; the rules read
@@ -290,6 +395,7 @@ def normal(prog, f, skip=(), depth=2):
         return _cache[k]
     f0 = f
     pre = copy.deepcopy(f.node)
+    pre = expand_properties(prog, f, pre)
     pre.body = _decomprehend(pre.body, [0])
     if norm(pre) != norm(f.node):
         f = copy.copy(f)
